@@ -134,6 +134,16 @@ func genPrev(c *Case) []byte {
 	return b
 }
 
+// Tagged reports whether the case carries the tag.
+func (c *Case) Tagged(t string) bool {
+	for _, x := range c.tags {
+		if x == t {
+			return true
+		}
+	}
+	return false
+}
+
 func tagPacket(c *Case, p *PacketIn) {
 	switch {
 	case !p.H.Extension:
@@ -743,8 +753,37 @@ func marshalTok(t *Toks, p *rtp.Packet) {
 	}
 }
 
+// c20ViaWire makes the next observeC20 call build the original by decoding its own wire image
+// (every slice of such a packet is a window into ONE receive buffer — the usual situation when a
+// received packet is cloned).  Only used for well-formed descriptions.
+func rebuildViaWire(orig *rtp.Packet) *rtp.Packet {
+	var wire []byte
+	var err error
+	if try(func() { wire, err = orig.Marshal() }) || err != nil {
+		return nil
+	}
+	q := &rtp.Packet{}
+	if try(func() { err = q.Unmarshal(wire) }) || err != nil {
+		return nil
+	}
+	if !orig.Header.Extension {
+		q.Header.ExtensionProfile = orig.Header.ExtensionProfile
+	}
+	return q
+}
+
 func observeC20(c *Case, in *PacketIn, extsNil bool, m c20Mut, onClone bool) {
+	observeC20x(c, in, extsNil, m, onClone, false)
+}
+
+func observeC20x(c *Case, in *PacketIn, extsNil bool, m c20Mut, onClone, viaWire bool) {
 	orig := buildC20(in, extsNil)
+	if viaWire {
+		if q := rebuildViaWire(orig); q != nil {
+			orig = q
+			c.Tag("built=unmarshal")
+		}
+	}
 	orig.Header.PayloadOffset = c.R.Pick(0, 12, 16, c.R.Intn(2000)) // deprecated, but a header field: Clone must carry it
 	nils := nilsOfHeader(&orig.Header)
 	nils.payload = orig.Payload == nil
@@ -934,6 +973,7 @@ func init() {
 				default:
 					p = genPacketFull(c.R, c.R.Pick(profOne, profTwo, profLegacy))
 				}
+				wf := c.Tagged("odd") == false
 				if !p.H.Extension && c.R.Bool() {
 					p.H.ExtensionProfile = uint16(c.R.Intn(65536))
 				}
@@ -941,7 +981,7 @@ func init() {
 				tagPacket(c, p)
 				mk := c.R.Intn(6)
 				c.Tag([]string{"mut=none", "mut=payload", "mut=csrc", "mut=extbyte", "mut=set", "mut=del"}[mk])
-				observeC20(c, p, c.R.Bool(), genMut(c.R, p, mk), c.R.Bool())
+				observeC20x(c, p, c.R.Bool(), genMut(c.R, p, mk), c.R.Bool(), wf && c.R.Chance(1, 3))
 			})
 		}
 	})
